@@ -37,6 +37,7 @@
 #include "abtu.h"
 #include "abti_error.h"
 #include "abti_valgrind.h"
+#include "abti_verif.h"
 
 /* Constants */
 #define ABTI_SCHED_NUM_PRIO 3
